@@ -25,6 +25,9 @@ theorem chain_append (a : S) (l1 l2 : List Out) :
     cases o <;> simp [chain, ih]
     split <;> simp
 
+@[simp] theorem chain_drainOuts (a : S) (s : St) (l : List Out) : chain a (drainOuts s ++ l) = chain a l := by
+  unfold drainOuts; split <;> simp [chain]
+
 theorem allowed_to_idle (a : S) : allowedEdge a .idle = true := by cases a <;> rfl
 
 @[simp] theorem armSession_st (c : Cfg) (s : St) (n : Nat) : (armSession c s n).st = s.st := by
@@ -39,6 +42,10 @@ theorem allowed_to_idle (a : S) : allowedEdge a .idle = true := by cases a <;> r
   unfold armSession; split <;> rfl
 @[simp] theorem armSession_idleT (c : Cfg) (s : St) (n : Nat) : (armSession c s n).idleT = s.idleT := by
   unfold armSession; split <;> rfl
+@[simp] theorem armSession_queued (c : Cfg) (s : St) (n : Nat) : (armSession c s n).queued = s.queued := by
+  unfold armSession; split <;> rfl
+@[simp] theorem touch_deleted (s : St) : (touch s).deleted = s.deleted := by unfold touch; split <;> rfl
+@[simp] theorem touch_queued (s : St) : (touch s).queued = s.queued := by unfold touch; split <;> rfl
 @[simp] theorem touch_st (s : St) : (touch s).st = s.st := by unfold touch; split <;> rfl
 @[simp] theorem touch_admin (s : St) : (touch s).admin = s.admin := by unfold touch; split <;> rfl
 @[simp] theorem touch_rib (s : St) : (touch s).rib = s.rib := by unfold touch; split <;> rfl
@@ -261,10 +268,16 @@ def notifs : List Out → List (Nat × Nat × Nat)
   | .trans _ _ _ _ :: r => notifs r
   | .deleted _ :: r => notifs r
 
+@[simp] theorem notifs_drainOuts (s : St) : notifs (drainOuts s) = [] := by
+  unfold drainOuts; split <;> simp [notifs]
+
 theorem notifs_append (l1 l2 : List Out) : notifs (l1 ++ l2) = notifs l1 ++ notifs l2 := by
   induction l1 with
   | nil => simp [notifs]
   | cons o r ih => cases o <;> simp [notifs, ih]
+
+@[simp] theorem notifs_drainOuts_app (s : St) (l : List Out) : notifs (drainOuts s ++ l) = notifs l := by
+  rw [notifs_append]; simp
 
 def isSession (s : St) : Prop := s.st = .opensent ∨ s.st = .openconfirm ∨ s.st = .established
 
